@@ -226,10 +226,19 @@ Fixpoint diff_rows (k : nat) (a b : list value) : list (nat * Z) :=
   end.
 
 (* ------------------------------------------------------------------ *)
-(* The per-CPU breakdown pipeline: mux0 (select = ss; inputs ss, tt; default
-   "unknown subsystem") -> tr ; mux1 (select = idle; inputs tr, idle) -> tri -> sort input *)
+(* The per-CPU breakdown pipeline: mux0 (select = ss, re-selected on tt; inputs ss, tt;
+   default "unknown subsystem") -> tr ; mux1 (select = idle; inputs tr, idle) -> tri -> sort input
+
+   `fx` selects the version of connect_cpu:
+     fx = true   the REPAIRED code (/repo commit bca364a, patches/fix-c20-mux0-reselect-on-task-type.diff):
+                 mux_add_reselect(&mux0, tt) puts cb_reselect (= cb_select on the select channel)
+                 on the task type channel, enabled at connect time;
+     fx = false  the code before the repair (kept to state the refutations
+                 C20_wiring_refuted_old ..): the task type channel only carries the cb_input
+                 of mux0's input 1. *)
 
 Section Breakdown.
+  Variable fx : bool.
   (* ST_TASK_BODY, ST_UNKNOWN_SS, ST_PROGRESSING of the model (nOS-V: 11 2 100, Nanos6: 1 2 100) *)
   Variables BODY UNKNOWN PROG : Z.
 
@@ -294,29 +303,47 @@ Section Breakdown.
     {| w_ss := w_ss st; w_tt := w_tt st; w_idle := w_idle st; w_tr := w_tr st; w_tri := w_tri st;
        w_sel0 := w_sel0 st; w_sel1 := w_sel1 st; w_sval := z |}.
 
+  (* mux.c:cb_select of mux0 (also reached through cb_reselect): disable the callback of the
+     old input, run select_tr on the CURRENT values of ss and tt, enable the callback of the
+     chosen input (bay_enable_cb: DL_APPEND at the end of that channel's callback list), and
+     chan_set(tr, value of the chosen input or the default). *)
+  Definition mux0_select (st : wires) : wires * sel :=
+    let s := select_tr (w_ss st) (w_tt st) in
+    let out := match s with None => VInt UNKNOWN | Some false => w_ss st | Some true => w_tt st end in
+    (set_tr (set_sel0 st s) out, s).
+
   (* The dirty callbacks of one channel, in the order they sit in the channel's callback
-     list (mux.c: cb_select is registered enabled by mux_init; the cb_input of an input is
-     appended by bay_enable_cb when cb_select selects it, so it runs after cb_select when
-     both are on the same channel).  Result: new state and the channels chan_set() was
-     called on, in order. *)
+     list.  mux.c: cb_select is registered enabled by mux_init and cb_reselect by
+     mux_add_reselect, both at connect time and never disabled, so each is the head of its
+     channel's list (ss, resp. tt); the cb_input of an input is appended by bay_enable_cb when
+     cb_select selects it, so it runs after cb_select / cb_reselect when it sits on the same
+     channel, also within the very walk (DL_FOREACH) in which it was re-appended.
+     Result: new state and the channels chan_set() was called on, in order. *)
   Definition run_cbs (st : wires) (c : chn) : wires * list chn :=
     match c with
     | SS =>
       (* mux0 cb_select *)
-      let s := select_tr (w_ss st) (w_tt st) in
-      let out := match s with None => VInt UNKNOWN | Some false => w_ss st | Some true => w_tt st end in
-      let st1 := set_tr (set_sel0 st s) out in
+      let (st1, s) := mux0_select st in
       (* mux0 input 0 (ss) cb_input, now enabled iff input 0 is selected *)
       match s with
       | Some false => (set_tr st1 (w_ss st1), [TR; TR])
       | _ => (st1, [TR])
       end
     | TT =>
-      (* mux0 input 1 (task type) cb_input, enabled iff selected *)
-      match w_sel0 st with
-      | Some true => (set_tr st (w_tt st), [TR])
-      | _ => (st, [])
-      end
+      if fx then
+        (* mux0 cb_reselect -> cb_select(mux->select, mux) *)
+        let (st1, s) := mux0_select st in
+        (* mux0 input 1 (task type) cb_input, now enabled iff input 1 is selected *)
+        match s with
+        | Some true => (set_tr st1 (w_tt st1), [TR; TR])
+        | _ => (st1, [TR])
+        end
+      else
+        (* before the repair: only mux0 input 1 (task type) cb_input, enabled iff selected *)
+        match w_sel0 st with
+        | Some true => (set_tr st (w_tt st), [TR])
+        | _ => (st, [])
+        end
     | IDLE =>
       (* mux1 cb_select *)
       let s := select_idle (w_idle st) in
@@ -417,7 +444,7 @@ Section Breakdown.
   Definition mux0_unevaluated (st : wires) : bool :=
     is_vnull (w_ss st) && is_vnull (w_tt st) && is_vnull (w_tr st) && sel_eqb (w_sel0 st) None.
 
-  (* [batch_ok st b]:
+  (* [batch_ok st b]: the batches the emulator can produce
      - each of the three CPU channels is written at most once (they are outputs of tracking
        muxes whose select is the CPU's running thread and whose inputs are that thread's
        channels; no event changes both);
@@ -426,13 +453,15 @@ Section Breakdown.
        thread's idle channel together with another one);
      - nothing but a batch that writes ss reaches a CPU whose mux0 never ran (the first thing a
        CPU sees is a change of its running thread, which writes all channels);
-     - a batch that writes the task type but not the subsystem does not change what select_tr
-       would choose (the select callback of mux0 hangs on ss only). *)
+     - ONLY for the code before the repair (fx = false): a batch that writes the task type but
+       not the subsystem does not change what select_tr would choose (the select callback of
+       mux0 hung on ss only).  Not a property of the emulator's batches: VTp/VTr in a task body
+       break it (C20_wiring_refuted_old). *)
   Definition batch_ok (st : wires) (b : list (cin * value)) : bool :=
     let st' := fst (apply_writes b st []) in
     once b && idle_last b &&
     (if mux0_unevaluated st then match b with [] => true | _ => writes_to CSS b end else true) &&
-    (if writes_to CSS b then true
+    (if fx || writes_to CSS b then true
      else sel_eqb (select_tr (w_ss st') (w_tt st')) (select_tr (w_ss st) (w_tt st))).
 
   (* the value the sort module should hold for this CPU *)
